@@ -3,6 +3,7 @@
 package gen
 
 import (
+	"encoding/json"
 	"os"
 	"strings"
 
@@ -193,7 +194,17 @@ func Message(t *rapid.T, o Opts) model.Message {
 	m := model.Message{Header: Header(t)}
 	m.Payloads = Payloads(t, o)
 	if rapid.IntRange(0, 7).Draw(t, "msg.relate") == 7 {
+		// relate may lengthen SPIs: the message stays within the chain budget of the caller (a protected message has one), or
+		// it stays as it was
+		before := model.JSON(m)
 		relate(t, &m)
+		if o.MaxChain > 0 && model.ChainSize(m.Payloads) > o.MaxChain {
+			var back model.Message
+			if err := json.Unmarshal(before, &back); err != nil {
+				panic("gen: " + err.Error())
+			}
+			m = back
+		}
 	}
 	return m
 }
@@ -255,7 +266,12 @@ func relate(t *rapid.T, m *model.Message) {
 	}
 }
 
+// allowLarge: payloads of tens of KiB may be drawn (set by Payloads from Opts.NoBig for the duration of the call)
+var allowLarge bool
+
 func Payloads(t *rapid.T, o Opts) []model.Payload {
+	defer func(prev bool) { allowLarge = prev }(allowLarge)
+	allowLarge = !o.NoBig
 	if o.MaxPayloads == 0 {
 		o.MaxPayloads = 12
 		if o.OnlyKinds == nil && (o.MaxChain == 0 || o.MaxChain >= 62000) && rapid.IntRange(0, 39).Draw(t, "manypayloads") == 39 {
@@ -565,6 +581,9 @@ func Delete(t *rapid.T) *model.Delete {
 	if rapid.Bool().Draw(t, "d.withspis") {
 		d.SPISize = 4
 		n := Len(t, "d.count", 0, 400, 0, 1, 2, 255, 256)
+		if allowLarge && rapid.IntRange(0, 39).Draw(t, "d.many") == 39 {
+			n = rapid.SampledFrom([]int{4096, 8191, 8192, 16380, 16381}).Draw(t, "d.count.many") // up to the most that fit a payload
+		}
 		for i := 0; i < n; i++ {
 			d.SPIs = append(d.SPIs, rapid.Uint32().Draw(t, "d.spi"))
 		}
@@ -1070,6 +1089,10 @@ func Identity(t *rapid.T, label string) string {
 	case 6:
 		return digits(15)
 	case 7:
+		return digits(rapid.SampledFrom([]int{1, 5, 14, 16, 17, 20, 32, 64, 255}).Draw(t, label+".ndigits")) // digits only, of any length
+	case 8:
+		return rapid.SampledFrom([]string{"\xef\xbb\xbf", "", " ", "\t"}).Draw(t, label+".lead") + digits(15) + realm + rapid.SampledFrom([]string{"\r\n", "\n", "", " ", "\x00"}).Draw(t, label+".trail")
+	case 9:
 		return ""
 	}
 	return string(rapid.SliceOfN(rapid.Byte(), 0, 80).Draw(t, label+".raw"))
